@@ -170,16 +170,65 @@ def _make_seeds(rng, m, case, partial=True):
             vs = [rng.standard_normal(n1) + (1j * rng.standard_normal(n1) if cplx else 0) for _ in range(k)]
             seeds.append(DyadCarrier(us, vs))
         else:
-            seeds.append(rand_like(rng, y, cplx))
+            w = rand_like(rng, y, cplx)
+            # structured seeds: all-zero columns (e.g. un-seeded eigenvectors) / zero entries
+            if isinstance(w, np.ndarray) and w.ndim >= 1 and w.shape[-1] >= 2 and rng.random() < 0.35:
+                keepc = rng.random(w.shape[-1]) < 0.5
+                if not keepc.any():
+                    keepc[int(rng.integers(0, w.shape[-1]))] = True
+                w = w * keepc
+            seeds.append(w)
     if all(s is None for s in seeds):
         j = int(rng.integers(0, nout))
         seeds[j] = rand_like(rng, m.sig_out[j].state)
     return seeds
 
 
+def vary_layout(rng, sigs):
+    """semantically irrelevant variation of the memory layout of dense 2-D input states (Fortran order / transposed view)"""
+    for sg in sigs:
+        x = sg.state
+        if isinstance(x, np.ndarray) and x.ndim == 2 and rng.random() < 0.35:
+            sg.state = np.asfortranarray(x) if rng.random() < 0.5 else np.ascontiguousarray(x.T).T
+
+
+def admissible_point(case, rng, base, scale=None):
+    """another admissible input point near `base` (used for warm-up responses and histories)"""
+    vs = case.dirs(rng, base) if case.dirs else _default_dirs(rng, base)
+    t = float(rng.uniform(0.15, 1.0)) * (case.hist_scale if scale is None else scale)
+    xs = max([maxabs(x) for x in base] + [1e-3])
+    vn = max([maxabs(v) for v in vs if v is not None] + [1e-12])
+    pt = [axpy(x, t * xs / vn, v) for x, v in zip(base, vs)]
+    if case.clip is not None:
+        pt[0] = np.clip(pt[0], *case.clip)
+    return pt
+
+
+def warm_up(case, rng, m, sigs):
+    """a response (and sometimes a seeded sensitivity + reset) at ANOTHER admissible point before the tested one, so that
+    caches and documented memories are not in their initial state"""
+    base = [vcopy(sg.state) for sg in sigs]
+    if rng.random() < 0.6:
+        _set_states(sigs, admissible_point(case, rng, base))
+        m.response()
+        if rng.random() < 0.5:
+            seeds = _make_seeds(rng, m, case, partial=True)
+            for so, w in zip(m.sig_out, seeds):
+                if w is not None:
+                    so.sensitivity = vcopy(w)
+            m.sensitivity()
+        m.reset()
+        _set_states(sigs, base)
+
+
 def adjoint_oracle(case, rng, ndirs=2, partial=True):
     """returns None if the adjoint identity holds at this point, else a description string"""
     m, sigs = case.make()
+    vary_layout(rng, sigs)
+    try:
+        warm_up(case, rng, m, sigs)
+    except Exception:  # the warm-up point was not admissible (e.g. empty active set): start without warm-up
+        m, sigs = case.make()
     states = [vcopy(s.state) for s in sigs]
     m.response()
     seeds = _make_seeds(rng, m, case, partial)
@@ -250,6 +299,11 @@ def linearity_oracle(case, rng):
     """C04: linear in the seed, second sensitivity() doubles, states untouched by sensitivity()/reset(),
     response() leaves inputs and sensitivities untouched"""
     m, sigs = case.make()
+    vary_layout(rng, sigs)
+    try:
+        warm_up(case, rng, m, sigs)
+    except Exception:  # the warm-up point was not admissible (e.g. empty active set): start without warm-up
+        m, sigs = case.make()
     x0 = [vcopy(s.state) for s in sigs]
     m.response()
     for s, x in zip(sigs, x0):
@@ -826,12 +880,53 @@ def gen_eigensolve(rng):
                 dirs=dirs, smooth_tol=2e-5, hist_scale=0.02)
 
 
+def gen_eigensolve_sparse(rng, real_only=True):
+    """sparse path (ARPACK shift-invert): real symmetric / complex Hermitian pencils with well separated spectrum"""
+    n = _ri(rng, 6, 9)
+    cplx = False if real_only else rng.random() < 0.4
+    gen = rng.random() < 0.5
+    nmodes = _ri(rng, 1, 3)
+
+    def rn(*s):
+        return rng.standard_normal(s) + (1j * rng.standard_normal(s) if cplx else 0)
+    d = np.arange(1, n + 1) * 1.0 + rng.uniform(-0.2, 0.2, n)
+    Q, _ = np.linalg.qr(rn(n, n))
+    A = Q @ np.diag(d) @ Q.conj().T
+    A = (A + A.conj().T) / 2
+    if gen:
+        C = rn(n, n)
+        B = C @ C.conj().T / n + np.eye(n)
+        B = (B + B.conj().T) / 2
+        Lc = np.linalg.cholesky(B)
+        A = Lc @ A @ Lc.conj().T
+        A = (A + A.conj().T) / 2
+    seed_q = rng.random() < 0.5
+
+    def dirs(rng2, states):
+        out = []
+        for x in states:
+            V = rng2.standard_normal(x.shape) + (1j * rng2.standard_normal(x.shape) if cplx else 0)
+            V = (V + V.conj().T) / 2
+            out.append(sps.csc_matrix(V))
+        return out
+
+    def make():
+        sigs = [pym.Signal("A", sps.csc_matrix(A))]
+        if gen:
+            sigs.append(pym.Signal("B", sps.csc_matrix(B)))
+        return pym.EigenSolve(sigs, nmodes=nmodes, sigma=0.0), sigs
+
+    c = Case(f"EigenSolve.sparse.n{n}.{'c' if cplx else 'r'}.{'gen' if gen else 'std'}.k{nmodes}", make, affine=False,
+             dirs=dirs, smooth_tol=5e-5, hist_scale=0.02)
+    return c
+
+
 GENERATORS = {
     "assembly": gen_assembly, "elemop": gen_elemop, "nodalop": gen_nodalop, "filterconv": gen_filterconv,
     "densityfilter": gen_densityfilter, "overhang": gen_overhang, "mathgeneral": gen_mathgeneral, "einsum": gen_einsum,
     "concat": gen_concat, "complex": gen_complex, "aggregation": gen_aggregation, "scaling": gen_scaling,
     "linsolve": gen_linsolve, "inverse": gen_inverse, "soe": gen_soe, "staticcond": gen_staticcond,
-    "eigensolve": gen_eigensolve,
+    "eigensolve": gen_eigensolve, "eigensolve_sparse": gen_eigensolve_sparse,
 }
 
 
@@ -854,3 +949,10 @@ class NetAdapter:
     def reset(self):
         self.net.reset()
         return self
+
+
+def numerical_limit(fam, msg):
+    """exceptions that are a documented numerical limit of the implementation's algorithm, not a property violation:
+    the sparse eigenvector sensitivity solves the (by construction singular) system (A - lambda B) v = r with an LU
+    factorisation; SuperLU occasionally finds the factor EXACTLY singular and raises. Counted as boundary skip."""
+    return fam == "eigensolve_sparse" and "exactly singular" in (msg or "")
